@@ -10,6 +10,7 @@ mod lazyx;
 mod openx;
 mod rawx;
 mod rawx_run;
+mod valuex;
 mod vecreads;
 mod vecx;
 mod vecx_run;
@@ -96,6 +97,9 @@ fn main() {
                 if p == "C08" {
                     vecreads::bigscan(&mut run, &kf);
                 }
+                if p == "C07" {
+                    valuex::add(&mut run, &kf, tier);
+                }
                 run.cov("rule", serde_json::json!(rawx_run::RULE));
                 run.finish()
             }
@@ -166,7 +170,7 @@ fn replay(file: &str) -> i32 {
         "crashx" => rawx_run::replay_crash(&doc),
         // the enumerating engines re-run their (deterministic) enumeration and report whether
         // the recorded signature occurs again
-        "codecx" | "eagerx" | "importx" | "lazyx" | "openx" | "versionx" | "bigscan" => replay_by_rerun(&doc),
+        "codecx" | "eagerx" | "importx" | "lazyx" | "openx" | "versionx" | "bigscan" | "valuex" => replay_by_rerun(&doc),
         e => {
             eprintln!("unknown engine {e}");
             2
